@@ -38,6 +38,56 @@ def seed(v):
     return s
 
 
+# a second seed with nested and sibling groups (patient > visit, order > observation / specimen): unknown and misplaced
+# segments inside a group, followed by segments of the same group, of a sub-group, of a sibling group, of the root
+SEED2 = ('MSH|^~\\&|SA|SF|RA|RF|20200229123000||ORU^R01^ORU_R01|ID2|P|{v}\r'
+         'PID|1||I1\rNTE|1\rPV1|1|I\rORC|RE\rOBR|1\rNTE|2\rOBX|1|ST|C||v\rNTE|3\rOBR|2\rOBX|1|ST|C||w\rDSC|1')
+
+
+def seed2(v):
+    s = SEED2.format(v=v)
+    if v < '2.4':
+        s = s.replace('ORU^R01^ORU_R01', 'ORU^R01')
+    return s
+
+
+def mutations2(v):
+    s = seed2(v)
+    yield 'seed2', s
+    lines = s.split('\r')
+    for li in range(1, len(lines)):
+        for rep in ('ZZZ', 'QQQ', 'EVN', 'MSA', 'PID', 'OBX', 'NTE', 'SPM'):
+            ls = list(lines)
+            ls[li] = rep + ls[li][3:]
+            yield 'segment-id-2', '\r'.join(ls)
+    for li in range(1, len(lines) + 1):
+        for ins in ('ZZZ|1', 'PV1|1', 'NTE|9', 'OBX|2', 'PID|2', 'ORC|NW'):
+            ls = list(lines)
+            ls.insert(li, ins)
+            yield 'insert-2', '\r'.join(ls)
+            ls.insert(li + 1, ins.replace('1', '3'))
+            yield 'insert-2-twice', '\r'.join(ls)
+    for li in range(1, len(lines)):
+        ls = list(lines)
+        del ls[li]
+        yield 'delete-2', '\r'.join(ls)
+        for lj in range(li + 1, len(lines)):
+            ls = list(lines)
+            ls[li], ls[lj] = ls[lj], ls[li]
+            yield 'swap-2', '\r'.join(ls)
+
+
+def order_texts(v):
+    """texts whose handling could leave something behind for the next one (delimiter sets that differ in one character,
+    values that contain the other text's delimiters)"""
+    base = seed(v).replace('FAM^GIV', 'FAM #4^GIV \\T\\ $')
+    t = {'std4': base, 'custom': base.replace('|', '!').replace('^', '$').replace('~', '*').replace('\\', '@').replace('&', '%').replace('MSH!$*@%', 'MSH!$*@%')}
+    if v >= '2.7':
+        t['std5'] = base.replace('MSH|^~\\&|', 'MSH|^~\\&#|')
+        t['std5-other'] = base.replace('MSH|^~\\&|', 'MSH|^~\\&$|')
+    return t
+
+
 def innermost_lib_frame(e):
     tb = traceback.extract_tb(e.__traceback__)
     for fr in reversed(tb):
@@ -152,6 +202,10 @@ def junk_strings(n):
 
 def units(tier):
     us = [('mut', v) for v in VERSIONS]
+    us += [('mut2', v) for v in VERSIONS]
+    for v in ('2.5', '2.7', '2.8.2') if tier == 'quick' else VERSIONS:
+        names = sorted(order_texts(v))
+        us += [('order', v, a, b) for a in names for b in names if a != b]
     n = 4 if tier == 'quick' else 5
     for pi in range(3):
         for first in range(len(JUNK)):
@@ -165,15 +219,28 @@ PREFIXES = ['', 'MSH', 'MSH|^~\\&|']
 def run_unit(unit, tier):
     res = Result()
     seen = set()
-    if unit[0] == 'mut':
+    if unit[0] == 'order':
+        # two texts one after the other in a fresh process, at both levels: the second is judged like any other input
+        _, v, a, b = unit
+        t = order_texts(v)
+        for level in (TOLERANT, STRICT):
+            try_input(res, t[a], level, 'order:first=%s' % a)
+            try_input(res, t[b], level, 'order:%s-after-%s' % (b, a))
+        res.states += 2
+        res.enumerated += 2
+        res.nontrivial += 2
+        res.dims['ordered pairs of texts'] += 1
+    elif unit[0] in ('mut', 'mut2'):
         v = unit[1]
-        for tag, text in mutations(v):
+        if unit[0] == 'mut2' and 'ORU_R01' not in common.libs()[v].MESSAGES:
+            res.dims['versions without ORU_R01'] += 1
+        for tag, text in (mutations(v) if unit[0] == 'mut' else mutations2(v) if 'ORU_R01' in common.libs()[v].MESSAGES else ()):
             if text in seen:
                 continue
             seen.add(text)
             res.states += 1
             res.enumerated += 1
-            if tag != 'seed':
+            if tag not in ('seed', 'seed2'):
                 res.nontrivial += 1
             for level in (TOLERANT, STRICT):
                 try_input(res, text, level, tag)
